@@ -110,6 +110,20 @@ fn run(construct: &str, depth: usize, op: &str) -> i32 {
             std::mem::forget(r);
             std::mem::forget(e);
         }
+        "evaluate-in-ruleset" => {
+            // the tree as one rule of a ruleset assembled through both builder entry points, evaluated with the others
+            let mk = |n: &str, e: Expr| Rule::new(n, std::collections::BTreeMap::new(), e);
+            let rs = ruleset()
+                .with_rule(mk("first", Expr::value(1)))
+                .expect("with_rule")
+                .with_rules(vec![mk("second", Expr::value(2)), mk("deep", e)])
+                .expect("with_rules")
+                .build();
+            let facts = Value::None;
+            let r = block_on(rs.evaluate_value(&facts));
+            std::mem::forget(r);
+            std::mem::forget(rs);
+        }
         _ => panic!("unknown op {op}"),
     }
     0
